@@ -839,6 +839,8 @@ class Ctl(Harness):
         self._judge_calls(C, P, evs, outside, has_fun, nl)
         tol = o["tol"]
 
+        # ---- C06: every evaluation is a counted one ---------------------------
+        C("C06", "user_functions_only_called_in_counted_evaluations", res.nfev == N, s=f"{sig}:nfev={res.nfev}:N={N}")
         # ---- C05 budgets -----------------------------------------------------
         C("C05", "evaluations_within_maxfev", N <= shape["maxfev"])
         C("C05", "nfev_is_number_of_evaluations", res.nfev == N, s=f"{sig}:fun={'y' if has_fun else 'none'}")
@@ -935,6 +937,9 @@ class Ctl(Harness):
                 C("C09", "status_1_3_4_only_when_request_occurred_at_last_evaluation",
                   b_and(b_implies(st == 3, t_cb(k)), b_implies(st == 1, t_target(k)), b_implies(st == 4, t_feas(k))),
                   s=f"{sig}:st={st}")
+                C("C09", "returned_point_satisfies_the_request_that_ended_the_run",
+                  b_and(b_implies(st == 1, b_and(lift(rf) <= (tgt if tgt is not None else -INF), lift(rv) <= tol)),
+                        b_implies(st == 4, lift(rv) <= tol)), s=f"{sig}:st={st}")
                 if st in (1, 3, 4):
                     goals.append("stop_at_eval_%d" % min(N, 4))
                     site = "init"
